@@ -134,18 +134,41 @@ def pairing(db, ctx):
         ctx.ob("%s|matches-%s" % (nm, "new-mode" if nm == "set_mode" else "current-mode"), scr == want_scr,
                "%s matches on `%s` (must be `%s`: %s)" % (nm, scr, want_scr, "the mode being set — matching the old mode adds the old mode's split list and the new mode's "
                                                          "units are never loaded under a restricted field subset" if nm == "set_mode" else "the tokenizer's mode"), fn=f)
-    want_fld = {"A": "a_unit_split", "B": "b_unit_split"}
+    # which unit list is read in which mode: reachability of each accessor call at mode = A / B / C (match arms, if-let chains, ==)
+    from ..flow import holds_at
+    from ..inline import nf as _nf
+
+    def ev_mode(m):
+        def pat_mode(p):
+            pth = ((p or {}).get("e") or {}).get("path") or (p or {}).get("path") or ""
+            return pth.split("::")[-1] if "Mode::" in pth else ("_" if (p or {}).get("k") == "Wild" else None)
+
+        def ev(atom):
+            if isinstance(atom, tuple):
+                pm = pat_mode(atom[2])
+                if pm == "_":
+                    return None
+                return (pm == m) if pm else None
+            a = peel(atom)
+            if a.get("k") == "LetExpr":
+                pm = pat_mode(a.get("pat"))
+                return (pm == m) if pm and pm != "_" else None
+            c = cmp_atom(a)
+            if c and c[0] in ("Eq", "Ne"):
+                for x in (c[1], c[2]):
+                    px = peel(x)
+                    if px.get("k") == "Path" and "Mode::" in (px.get("path") or ""):
+                        eq = px["path"].split("::")[-1] == m
+                        return eq if c[0] == "Eq" else (not eq)
+            return None
+        return ev
     for nm in ("num_splits", "split"):
-        f = db.one(nm, "ResultNode")
-        ms = [n for n, _ in walk(f.hir) if n.get("k") == "Match" and n.get("src") == "Normal"]
+        f = db.view(db.one(nm, "ResultNode"))
+        calls = [(c, ps) for c, ps in walk(f.hir) if c.get("k") == "MethodCall" and c.get("method") in ("a_unit_split", "b_unit_split")]
         got = {}
-        for m in ms:
-            am = _arm_map(m)
-            if "A" in am and "B" in am:
-                for k, v in am.items():
-                    calls = [c["method"] for c, _ in walk(v) if c.get("k") == "MethodCall" and c.get("method") in ("a_unit_split", "b_unit_split")]
-                    got[k] = calls
-        ok = got.get("A") == ["a_unit_split"] and got.get("B") == ["b_unit_split"] and not got.get("C")
+        for m in ("A", "B", "C"):
+            got[m] = sorted({c["method"] for c, ps in calls if holds_at(path_conditions(c["id"], f.hir) or [], ev_mode(m)) is not False})
+        ok = got == {"A": ["a_unit_split"], "B": ["b_unit_split"], "C": []}
         ctx.ob("ResultNode::%s|mode->field" % nm, ok, "ResultNode::%s reads %s (must be A->a_unit_split, B->b_unit_split, C->nothing)" % (nm, got), fn=f)
     ctx.floor(4)
 
@@ -165,52 +188,50 @@ def offsets(db, ctx):
     if len(fs) != 1:
         raise AnchorMissing("<NodeSplitIterator as Iterator>::next")
     f = fs[0]
-    # the (char_end, byte_end) decision
-    dec = None
-    for n, _ in walk(f.hir):
-        if n.get("k") == "Let" and n["pat"].get("k") == "Tuple" and "init" in n and peel(n["init"]).get("k") == "If":
-            dec = (n["pat"], peel(n["init"]))
-    if dec is None:
-        raise AnchorMissing("NodeSplitIterator::next: (char_end, byte_end) decision")
-    pat, iff = dec
-    names = [p.get("name") for p in pat["pats"]]
+    f = db.view(f)
     from ..inline import nf as _nf
-    last_cond = _nf(iff["cond"]) == "((1 + self.index) == self.splits.len())"
-    then_t = peel(iff["then"])
-    then_ok = then_t.get("k") == "Tup" and [render(x) for x in then_t["elems"]] == ["self.char_end", "self.byte_end"]
-    els = iff.get("else", {})
-    be = ce = None
-    for n2, _ in walk(els):
-        if n2.get("k") == "Let" and "init" in n2:
-            if n2["pat"].get("name") == "byte_end":
-                be = peel(n2["init"])
-            if n2["pat"].get("name") == "char_end":
-                ce = peel(n2["init"])
-    be_ok = bool(be) and be.get("k") == "Binary" and be.get("op") == "Add" and \
-        {local_name(peel_casts(be["l"])) or "", local_name(peel_casts(be["r"])) or ""} >= {"byte_start"} and \
-        any(peel_casts(s_).get("k") == "MethodCall" and peel_casts(s_).get("method") == "head_word_length" for s_ in (be["l"], be["r"]))
-    ce_ok = bool(ce) and ce.get("k") == "MethodCall" and ce.get("method") == "ch_idx" and local_name(ce["args"][0]) == "byte_end"
-    else_ok = be_ok and ce_ok
-    ctx.ob("next|last-unit-inherits-parent-end", names == ["char_end", "byte_end"] and last_cond and then_ok,
-           "`%s` -> %s for %s (the last unit must take (self.char_end, self.byte_end))" % (render(iff["cond"]), render(then_t), names), fn=f)
-    ctx.ob("next|inner-unit-end", else_ok, "inner units end at byte_start + head_word_length(), mapped to characters by text.ch_idx(byte_end): %s" % else_ok, fn=f)
+    from ..flow import select
+    import re as _re
+
+    def ev_last(is_last):
+        def ev(atom):
+            c = cmp_atom(atom)
+            if c and c[0] in ("Eq", "Ne") and {_nf(c[1]), _nf(c[2])} == {"(1 + self.index)", "self.splits.len()"}:
+                return is_last if c[0] == "Eq" else (not is_last)
+            return None
+        return ev
+    node_call = [c for c, _ in walk(f.hir) if is_call(c) and path_ends(callee(c), "inner::Node::new")]
+    res_call = [c for c, _ in walk(f.hir) if is_call(c) and path_ends(callee(c), "ResultNode::new")]
+    if len(node_call) != 1 or len(res_call) != 1:
+        raise AnchorMissing("NodeSplitIterator::next: Node::new / ResultNode::new")
+    na, ra = call_args(node_call[0]), call_args(res_call[0])
+    ends = {}
+    for is_last in (True, False):
+        ends[is_last] = (_nf(select(db, f, na[1], ev_last(is_last))), _nf(select(db, f, ra[3], ev_last(is_last))))
+    HW = r"\(self\.byte_offset \+ .+\.head_word_length\(\)\)|\(.+\.head_word_length\(\) \+ self\.byte_offset\)"
+    last_ok = ends[True] == ("self.char_end", "self.byte_end")
+    inner_ok = _re.fullmatch(HW, ends[False][1]) is not None and ends[False][0] == "self.text.ch_idx(%s)" % ends[False][1]
+    ctx.ob("next|last-unit-inherits-parent-end", last_ok,
+           "when (index + 1 == splits.len()) the emitted node ends at chars `%s`, bytes `%s` (the last unit must take (self.char_end, self.byte_end))" % ends[True], fn=f)
+    ctx.ob("next|inner-unit-end", inner_ok, "otherwise it ends at chars `%s`, bytes `%s` (must be text.ch_idx(byte_start + head_word_length()), byte_start + "
+                                           "head_word_length())" % ends[False], fn=f)
+    # the stored offsets advance to exactly the emitted ends
+    adv_ok = True
     adv = {}
     for n, _ in walk(f.hir):
-        if n.get("k") == "Assign" and peel(n["l"]).get("k") == "Field":
-            adv[peel(n["l"])["name"]] = render(n["r"])
-    ctx.ob("next|advance", adv.get("char_offset") == "char_end" and adv.get("byte_offset") == "byte_end", "offsets advance: %s" % adv, fn=f)
-    used = None
-    for c, _ in walk(f.hir):
-        if is_call(c) and path_ends(callee(c), "ResultNode::new"):
-            a = [render(x) for x in call_args(c)]
-            used = a
-    node = None
-    for c, _ in walk(f.hir):
-        if is_call(c) and path_ends(callee(c), "inner::Node::new"):
-            node = [render(x) for x in call_args(c)][:2]
-    ctx.ob("next|emitted-ranges", used is not None and used[2:4] == ["byte_start", "byte_end"] and node == ["char_start", "char_end"],
-           "emitted node: chars %s, bytes %s (must be (char_start,char_end),(byte_start,byte_end))" % (node, used[2:4] if used else None), fn=f)
-    idx = any(n.get("k") == "AssignOp" and n.get("op") == "Add" and "index" in render(n["l"]) and lit_int(n["r"]) == 1 for n, _ in walk(f.hir))
+        if n.get("k") == "Assign" and peel(n["l"]).get("k") == "Field" and peel(n["l"]).get("name") in ("char_offset", "byte_offset"):
+            nm = peel(n["l"])["name"]
+            for is_last in (True, False):
+                got = _nf(select(db, f, n["r"], ev_last(is_last)))
+                adv[(nm, is_last)] = got
+                adv_ok = adv_ok and got == ends[is_last][0 if nm == "char_offset" else 1]
+    ctx.ob("next|advance", adv_ok and len(adv) == 4, "offsets advance to the emitted ends: %s" % adv, fn=f)
+    starts = (_nf(na[0]), _nf(ra[2]))
+    ctx.ob("next|emitted-ranges", starts == ("self.char_offset", "self.byte_offset"),
+           "emitted node starts at chars `%s`, bytes `%s` (must be the offsets stored by the previous unit: self.char_offset, self.byte_offset)" % starts, fn=f)
+    idx = any(n.get("k") == "AssignOp" and n.get("op") == "Add" and _nf(n["l"]) == "self.index" and lit_int(n["r"]) == 1 for n, _ in walk(f.hir)) or \
+        any(n.get("k") == "Assign" and _nf(n["l"]) == "self.index" and _nf(n["r"]) == "(1 + self.index)" for n, _ in walk(f.hir))
+
     def _is_stop(cond):
         c = cmp_atom(cond)
         if not c:
@@ -220,7 +241,13 @@ def offsets(db, ctx):
             op, l, r = {"Le": "Ge", "Lt": "Gt"}[op], r, l
         return op == "Ge" and _nf(l) == "self.index" and _nf(r) == "self.splits.len()"
     stop = any(pol and ek in ("none", "ret") and _is_stop(cond) for ifn, cond, pol, ek, ps in guarded_exits(f.hir))
-    ctx.ob("next|index", idx and stop, "index += 1 per unit (%s) and None once idx >= splits.len() (%s)" % (idx, stop), fn=f)
+    # `self.splits.get(self.index)?` is the same stop: None when the index is past the end
+    from ..uses import consumer
+    for c, ps in walk(f.hir):
+        if c.get("k") == "MethodCall" and c.get("method") == "get" and _nf(c["recv"]) == "self.splits" and c["args"] and _nf(c["args"][0]) == "self.index" \
+                and consumer(c, ps)[0] == "try":
+            stop = True
+    ctx.ob("next|index", idx and stop, "index advances by one per unit (%s) and None once index >= splits.len() (%s)" % (idx, stop), fn=f)
 
 
 @rule("C09.closure", "SPLIT_A|SPLIT_B => HEAD_WORD_LENGTH in normalize(); set_mode ORs the mode flag into self.subset; set_subset re-adds it after normalize()")
@@ -251,7 +278,7 @@ def closure(db, ctx):
         readd = len(ops) >= 2 and any(isM(o) for o in ops if isinstance(o, dict)) and any(is_norm(o) for o in ops if isinstance(o, dict))
     ctx.ob("set_subset|normalise-and-readd", norm and readd, "set_subset normalises (subset | mode flag) (%s) and stores <normalised> | mode flag (%s)" % (norm, readd), fn=ss)
     nx = [f for f in db.impls_of("Iterator::next") if "NodeSplitIterator" in f.key]
-    reads = nx and any(c.get("k") == "MethodCall" and c.get("method") == "head_word_length" for c, _ in walk(nx[0].hir))
+    reads = nx and any(c.get("k") == "MethodCall" and c.get("method") == "head_word_length" for c, _ in walk(db.view(nx[0]).hir))
     ctx.ob("next|reads-head_word_length", bool(reads), "NodeSplitIterator::next reads head_word_length() (hence the closure requirement): %s" % bool(reads))
 
 
